@@ -454,7 +454,7 @@ def u_axes(ctx, shard, nshards):
             axn = tuple(range(ndim)) if axes is None else ((axes,) if isinstance(axes, int) else axes)
             lead = int(np.prod([shape[a] for a in axn]))
             for sname in snames:
-                for B in sorted({1, max(1, lead // 2), max(1, lead - 1)} if ndim == 2 else {1, max(1, lead // 2)}):
+                for B in sorted({1, max(1, lead // 2), max(1, lead - 1)} if (ndim == 2 and not ctx.quick) else {1, max(1, lead // 2)}):
                     todo.append((shape, axes, sname, B))
     for ki, (shape, axes, sname, B) in enumerate(todo):
         if ki % nshards == shard:
@@ -691,7 +691,7 @@ def _tail_verdict(ctx, agg):
 def _tag_configs(ctx, shard, nshards):
     rng = np.random.default_rng([ctx.seed, 909])  # same list in every shard, then strided
     cfgs = []
-    n = ctx.n(16, 80) * nshards
+    n = ctx.n(12, 80) * nshards
     fixed = [(3, 7, 4, 3), (1, 8, 3, 2), (2, 5, 3, 4), (4, 4, 5, 2), (1, 1, 1, 2), (2, 1, 1, 3), (3, 5, 2, 1),
              (2, 6, 12, 2), (4, 16, 9, 3), (1, 13, 4, 5), (2, 12, 5, 3), (3, 9, 7, 1),
              # remainders of >= 2 samples and several epochs: "same samples dropped every epoch" is judgeable
@@ -914,7 +914,7 @@ def u_eager(ctx, shard, nshards):
         # (1) train_epoch outside jit: batch_indices concrete, gather inside the scan on tracers
         rng = np.random.default_rng([ctx.seed, 910])
         cases = []
-        for i in range(ctx.n(6, 24) * nshards):
+        for i in range(ctx.n(5, 24) * nshards):
             E, S = int(rng.integers(1, 5)), int(rng.integers(2, 13))
             N = E * S
             NB = int(rng.integers(1, min(N, 7) + 1))
